@@ -888,6 +888,46 @@ def run_vest(pair, rng, variant, opts):
     if not su.deploy(users):
         return tr
     base = su.claim
+    # schedule acceptance: probes (run on a copy, discarded) with exactly ONE defect each, next to the valid twin
+    if variant == "guarV2":
+        now = tr.round
+        LIM = 26280000
+        def sched(ms):
+            a = [len(ms)]
+            for (r_, p_) in ms:
+                a += [r_, p_]
+            return a
+        probes = [
+            [(base, 10000)],                                         # valid
+            [(base, 5000), (base, 5000)],                            # valid, equal rounds
+            [(base + 5, 5000), (base + 4, 5000)],                    # decreasing rounds
+            [(now + LIM, 10000)],                                    # exactly at the 5-year limit (valid)
+            [(now + LIM + 1, 10000)],                                # one round beyond
+            [(base, 9999)], [(base, 5000), (base + 1, 5001)],        # 99.99 % / 100.01 %
+            [(base, 10001)],                                         # a single percentage above 100 %
+            [],                                                      # empty
+            [(base + i, 166 if i < 59 else 10000 - 166 * 59) for i in range(60)],      # 60 milestones (valid)
+            [(base + i, 163 if i < 60 else 10000 - 163 * 60) for i in range(61)],      # 61 milestones
+        ]
+        for ms in rng.shuffle(probes)[:rng.range(3, 6)]:
+            tr.call(OWNER, "setSchedule2", sched(ms), probe=True)
+        if rng.chance(1, 2):
+            # a release round in the past: needs time to have passed (still before the confirmation start)
+            tr.round = rng.range(1, su.conf - 1)
+            tr.call(OWNER, "setSchedule2", sched([(tr.round - 1, 5000), (base, 5000)]), probe=True)
+            tr.call(OWNER, "setSchedule2", sched([(tr.round, 5000), (base, 5000)]), probe=True)     # "now" is allowed
+    else:
+        probes = [
+            [base, 10000, 0, 0, 0], [base, 5000, 2, 2500, 3], [base, 5000, 2, 2500, 0],    # valid, valid, zero period
+            [base, 5000, 2, 2501, 3], [base, 4999, 2, 2500, 3], [base, 0, 3, 3333, 1], [base, 1, 3, 3333, 1],
+            [base, 10001, 0, 0, 1], [base, 0, 0, 0, 1], [base, 0, 1, 10000, 1],
+        ]
+        for a in rng.shuffle(probes)[:rng.range(3, 6)]:
+            tr.call(OWNER, "setSchedule1", a, probe=True)
+        if rng.chance(1, 2):
+            tr.round = rng.range(1, su.conf - 1)
+            tr.call(OWNER, "setSchedule1", [tr.round - 1, 10000, 0, 0, 0], probe=True)      # start in the past
+            tr.call(OWNER, "setSchedule1", [tr.round, 10000, 0, 0, 0], probe=True)
     if variant == "guarV1":
         times = rng.range(1, 5)
         pct = rng.pick([10000 // (times + 1), 1000, 2500])
@@ -917,6 +957,16 @@ def run_vest(pair, rng, variant, opts):
     pairs = [(u, rng.range(1, 3)) for u in users]
     su.allocate(pairs)
     su.deposit()
+    # the schedule is frozen from the confirmation start round on: one round before (allowed), exactly at it and
+    # after it (both rejected: confirmation has begun), each as a probe with a perfectly valid schedule
+    tr.dump()
+    for rr in (su.conf - 1, su.conf, su.conf + 1):
+        tr.round = rr
+        if variant == "guarV1":
+            tr.call(OWNER, "setSchedule1", [base + 1, 10000, 0, 0, 0], probe=True)
+        else:
+            tr.call(OWNER, "setSchedule2", [1, base + 1, 10000], probe=True)
+    tr.dump()
     su.confirm_all(pairs)
     tr.round = su.sel
     tr.call(STRANGER, "filter")
